@@ -401,6 +401,39 @@ def rule_R3_evaluated(ctx, prj: Project) -> bool:
                 all_decided = False
                 continue
             facts.append(f"never equal to an instance of the {len(concrete) - 1} other classes")
+            # equal => same hash also for predicates that have been used: every state reached by accept() on up to three tokens
+            # (the two argument values and an unrelated name)
+            try:
+                from ..absint import make_token
+                import itertools
+                alphabet = [("Punctuation", "p"), ("Punctuation", "q"), ("Name", "z")]
+                acc_m = prj.func(ci.find_method("accept").qual, raw=True)
+                reached = [((), a1)]
+                for k in (1, 2, 3):
+                    for seq in itertools.product(range(3), repeat=k):
+                        o = build(ci, ["p", "q", "s"])
+                        for j in seq:
+                            it.call(acc_m, [make_token(it, prj, alphabet[j][0], alphabet[j][1])], {}, o)
+                        reached.append((seq, o))
+                small = [r for r in reached if len(r[0]) <= 2]
+                pairs = [(reached[0], r) for r in reached[1:]] + [(x, y) for x in small for y in small if x is not y and x[0] < y[0]]
+                for (sx, x), (sy, y) in pairs:
+                    if it.equal(x, y) and it.model_hash(x) != it.model_hash(y):
+                        hs = ci.find_method("__hash__")
+                        words = lambda sq: "[" + " ".join(alphabet[j][1] for j in sq) + "]" if sq else "no token"
+                        ea, ha = _self_attrs(prj.func(ci.find_method("__eq__").qual).node, ci, prj), _self_attrs(prj.func(hs.qual).node, ci, prj)
+                        ctx.viol("R3", f"{ci.name}/hash-subset", hs.site(),
+                                 f"a {ci.name} that has accepted {words(sx)} and one that has accepted {words(sy)} compare equal but hash differently"
+                                 + (f" (__hash__ reads {sorted(ha - ea)}, which __eq__ does not compare)" if ha - ea else "")
+                                 + ": sets and dictionaries of the subset construction treat equal symbols as different")
+                        bad = True
+                        break
+                if bad:
+                    all_decided = False
+                    continue
+                facts.append(f"equal => same hash over {len(reached)} states reached by accept()")
+            except (Unknown, PyRaise) as e:
+                facts.append(f"used instances not evaluable ({e})")
             ctx.ok("R3", site, f"{ci.name}: " + "; ".join(facts))
         except (Unknown, PyRaise) as e:
             ctx.info(f"R3: {ci.name} not evaluable ({type(e).__name__}: {e}); the structural rule decides")
